@@ -1222,6 +1222,13 @@ def _fresh(eng, e, st, fr, k):
     return eng.ev(e.args[0], st, fr, got)
 
 
+def _cut(eng, e, st, fr, k):
+    """cut(s, a, b): the piece s[a:b] for 0 <= a <= b <= len(s), as the plain sequence extract (no Python clamping: outside
+    that range it is whatever the extract is -- contracts state the range next to it)"""
+    return eng.ev(e.args[0], st, fr, lambda s1, sv: eng.ev(e.args[1], s1, fr, lambda s2, a: eng.ev(e.args[2], s2, fr,
+                  lambda s3, b: k(s3, SStr(z3.SubString(sv.t, as_int(a), as_int(b) - as_int(a)))))))
+
+
 def _alloc0(eng, e, st, fr, k):
     """ALLOC0(): the allocation pointer at entry of the function under contract (objects with a smaller id existed)"""
     base = st.old[2] if st.old is not None else st.alloc0
@@ -1430,7 +1437,7 @@ def _modconst(eng, e, st, fr, k):
 
 SPECIAL_FORMS = {"dict_wf": _dict_wf, "dict_pos": _dict_pos, "was": _was, "ghostfn": _ghostfn, "ghost_str": _ghost_str, "ghost": _ghost, "ref_id": _ref_id, "same_class": _same_class, "existed": _existed, "content_unchanged": _content_unchanged, "modconst": _modconst, "nlines": _nlines, "joined": _joined, "truthy": _truthy, "isint": _isint, "isnone": _isnone,
                  "dict_key_at": _dict_key_at, "str_of": _str_of, "forall": _quant("forall"), "exists": _quant("exists"), "implies": _implies, "old": _old,
-                 "fresh": _fresh, "allocated": _allocated, "unchanged": _unchanged, "isstr": _isstr, "isref": _isref, "ALLOC0": _alloc0,
+                 "fresh": _fresh, "allocated": _allocated, "unchanged": _unchanged, "isstr": _isstr, "isref": _isref, "ALLOC0": _alloc0, "cut": _cut,
                  "sval": _sval, "ival": _ival, "cls_is": _cls_is, "same": _same_obj, "as_ref": _as_ref}
 SPECIAL_ALWAYS = set()
 SPEC_FUNCS = set()
